@@ -1748,7 +1748,19 @@ class Emitter:
     def s_WhileStmt(self, n, ind):
         inner = [c for c in n["inner"]]
         if n.get("hasVar"):
-            raise Unsupported("while with condition variable")
+            # `while (T x = e) body`: the variable is declared and tested at the top of every iteration
+            # (`continue` in the body re-evaluates the declaration, as in C++)
+            var, c, body = inner[0], inner[1], inner[-1]
+            m = self.loop_macro()
+            ind2 = ind + "  "
+            out = [ind + "while (1)", ind2 + m, ind + "{"]
+            out += self.S(var, ind2)
+            pre, ce = self.with_pre(lambda: self.E(c))
+            out += [ind2 + p for p in pre]
+            out.append("%sif (!(%s)) break;" % (ind2, ce))
+            out += self.body(body, ind2)
+            out.append(ind + "}")
+            return out
         c, body = inner[0], inner[-1]
         pre, ce = self.with_pre(lambda: self.E(c))
         if pre:
